@@ -103,6 +103,7 @@ def texts_for(bg, tier, phase):
         nband, nadj = 2, 1
     else:
         seeds = [(0.0, 0.0)] + [(c, (h + rot) % 360) for h in (25, 70, 115, 160, 205, 250, 295, 340) for c in (0.06, 0.16)]
+        seeds += [(0.09, (h + rot) % 360) for h in (35, 140, 265, 325)]
         nband, nadj = 6, 2
     lb = _wc.luminance(bg)
     out, seen = [], set()
@@ -177,6 +178,29 @@ def near_background_shell(phase):
                 for b in lv:
                     if _wc.ratio((r, g, b), bg) <= 1.08:
                         out.append(((r, g, b), bg, "near_bg_shell"))
+    return out
+
+
+DARK_BGS = [(115, 83, 215), (117, 123, 206), (160, 160, 160), (142, 142, 142)]
+
+
+def dark_tinted_band(tier, phase):
+    """Dark, tinted text a few per cent below each threshold of a mid-tone background: colours with 8-bit channels of 1..15,
+    where the inverse conversion works on the linear toe of the sRGB curve.  Every distinct colour of the seed lines in
+    [0.96 T, T) on the darker side (every second one in the quick tier)."""
+    rot = 22.5 * phase
+    out, seen = [], set()
+    for bg in DARK_BGS:
+        lb = _wc.luminance(bg)
+        for C in (0.05, 0.07, 0.09):
+            for H in (35, 100, 250, 325):
+                line = lightness_line(C, (H + rot) % 360, 1024)
+                for T in THRESHOLDS:
+                    side = [c for c in line if _wc.luminance(c) < lb and 0.96 * T <= _wc.ratio(c, bg) < T]
+                    for c in side[:: 2 if tier == "quick" else 1]:
+                        if (c, bg) not in seen:
+                            seen.add((c, bg))
+                            out.append((c, bg, "dark_tinted"))
     return out
 
 
